@@ -95,7 +95,7 @@ def gen_case(rng):
                                               replace=False)]
     letter = str(rng.choice(['X', 'Y', 'Z']))
     eta_pool = ['0.5', '1', '3', '10', '30', '100', 'inf', '2.5', '7.25',
-                '1000']
+                '1000', '0.25', '1.5', '2', '0.1', '10.5']
     ne = int(rng.integers(1, 5))
     etas = [eta_pool[int(i)] for i in rng.choice(len(eta_pool), size=ne,
                                                  replace=False)]
